@@ -28,3 +28,30 @@ static inline void slot_assign(pstr *slot, strref v) { slot->ptr = v.ptr; slot->
 static inline _Bool valid_param_name(strref name) { return g_name_valid; }       /* Rule::isValidParameterName: the nine rule variable names (not under contract) */
 static inline void scope_insert(struct Scope *s, strref name, strref value) { g_inserts++; g_insert_scope = s; g_insert_name = name.ptr; g_insert_val = value.ptr; }
 static inline strref ref_id(const strref *r) { return *r; }
+/* lookupNamedBuildParameter(decl, startTok, "<name>", storage): fills `storage` with the value and returns it (lookupBuildParameterImpl: U-ninja-scope) */
+static inline strref lookup_named(void *loader, struct Command *decl, const struct Token *tok, const char *name, pstr *storage) {
+  int c = pn_class(name);
+  if (g_nlookups == 0) { g_lookup_decl_ok = decl; g_lookup_tok_ok = tok; }
+  else { if (g_lookup_decl_ok != (const void *)decl) g_lookup_decl_ok = 0; if (g_lookup_tok_ok != (const void *)tok) g_lookup_tok_ok = 0; }
+  g_nlookups++; g_plookups[c]++;
+  storage->ptr = &g_pval[c]; storage->len = g_pempty[c] ? 0 : 1;
+  strref r; r.ptr = storage->ptr; r.len = storage->len; return r; }
+/* deps.str() == "" / "gcc" / "msvc": only the `deps` value is compared with words */
+static inline _Bool ref_is_word(strref v, const char *w) {
+  __CPROVER_assert(v.ptr == &g_pval[PN_deps], "only the deps value is compared with a word");
+  return (w[0] == 0) ? (g_deps_word == 0) : (w[0] == 'g') ? (g_deps_word == 1) : (g_deps_word == 2); }
+static inline void pstr_clear(pstr *p) { p->len = 0; }
+struct pooliter { _Bool hit; const void *second; };
+static inline struct pooliter pools_find(void *pools, strref name) { struct pooliter it; it.hit = g_pool_known; it.second = g_pool_hit; return it; }
+static inline struct pooliter pools_end(void *pools) { struct pooliter it; it.hit = 0; it.second = 0; return it; }
+static inline void *manifest_pools(struct Manifest *m) { return m; }
+static inline _Bool normalize_rsp(strref wd, pstr p) { return g_norm_ok; }
+static inline void set_command(struct Command *c, strref v) { g_sets++; g_set_command = v.ptr; }
+static inline void set_description(struct Command *c, strref v) { g_sets++; g_set_description = v.ptr; }
+static inline void set_depfile(struct Command *c, strref v) { g_sets++; g_set_depfile = v.ptr; }
+static inline void set_rspfile(struct Command *c, strref v) { g_sets++; g_set_rspfile = v.ptr; }
+static inline void set_rspcontent(struct Command *c, strref v) { g_sets++; g_set_rspcontent = v.ptr; }
+static inline void set_depsstyle(struct Command *c, int k) { g_sets++; g_set_depsstyle = k; }
+static inline void set_pool(struct Command *c, const void *p) { g_sets++; g_set_pool = p; }
+static inline void set_generator(struct Command *c, _Bool f) { g_sets++; g_set_generator = f; }
+static inline void set_restat(struct Command *c, _Bool f) { g_sets++; g_set_restat = f; }
